@@ -1216,7 +1216,41 @@ class Exec(object):
             self.frames.pop()
         return out
 
+    def map_comprehension(self, e):
+        """[f(x) for x in L] with L holding a symbolic segment: element-wise map
+        (assumes the element expression is pure and total)."""
+        from . import natives
+        if len(e.generators) != 1 or e.generators[0].ifs:
+            return None
+        g = e.generators[0]
+        it = self.eval(g.iter)
+        if not (isinstance(it, SList) and it.mid is not None):
+            return ('plain', it)
+        fr = self.frames[-1]
+        src = ast.unparse(e.elt) + ' for ' + ast.unparse(g.target)
+        self.notes.append('element-wise map over a symbolic list assumes a pure, total element expression: [%s]' % src)
+
+        def f(x):
+            cfr = Frame(fr.func, fr.module, {}, set(), fr.env + [fr.locals])
+            cfr.globalnames = fr.globalnames
+            self.frames.append(cfr)
+            try:
+                self.assign(g.target, x)
+                return self.eval(e.elt)
+            finally:
+                self.frames.pop()
+        out = SList([f(x) for x in it.left], 'list')
+        mid = it.mid
+        out.mid = SymSeg(mid.length, lambda i: f(mid.elem(i)), mid.start, tag='%s|%s' % (mid.tag, src))
+        out.mid.fmap = f
+        out.mid.src = mid
+        out.right = [f(x) for x in it.right]
+        return ('mapped', out)
+
     def ex_ListComp(self, e):
+        r = self.map_comprehension(e)
+        if r is not None and r[0] == 'mapped':
+            return r[1]
         return SList(self.comprehension(e, lambda: self.eval(e.elt)))
 
     def ex_GeneratorExp(self, e):
